@@ -72,10 +72,20 @@ pub fn worker_main() {
             let backends: Vec<&str> = match req.backend.as_str() {
                 "both" => vec!["rasn", "ts"],
                 "ts" => vec!["ts"],
+                // the rasn backend under every non-default option (each alone, then all together)
+                "rasn-allcfg" => vec!["rasn:open-types", "rasn:from-impls", "rasn:no-std", "rasn:wildcard", "rasn:all"],
                 _ => vec!["rasn"],
             };
             for b in backends {
-                let o = if b == "ts" { compile_ts(&[req.text.clone()]) } else { compile_rasn(&[req.text.clone()], &Cfg::default()) };
+                let cfg = match b {
+                    "rasn:open-types" => Cfg { non_opaque_open_types: true, ..Cfg::default() },
+                    "rasn:from-impls" => Cfg { from_impls: true, ..Cfg::default() },
+                    "rasn:no-std" => Cfg { no_std: true, ..Cfg::default() },
+                    "rasn:wildcard" => Cfg { wildcard: true, ..Cfg::default() },
+                    "rasn:all" => Cfg { non_opaque_open_types: true, from_impls: true, no_std: true, wildcard: true, custom_imports: vec!["core::fmt::Display".into()], type_annotations: Some(vec!["#[derive(Eq, Hash)]".into()]) },
+                    _ => Cfg::default(),
+                };
+                let o = if b == "ts" { compile_ts(&[req.text.clone()]) } else { compile_rasn(&[req.text.clone()], &cfg) };
                 // compile_* already rendered Display + contextualize for errors and warnings
                 if let Outcome::Panic { message, location } = &o {
                     return Resp { class: "panic".into(), panic_location: Some(location.clone()), panic_message: Some(message.clone()), which: b.into(), digest: digest_of(&o) };
